@@ -1,52 +1,16 @@
 package main
 
 import (
-	"fmt"
-	"math/rand/v2"
-	"time"
+	"os"
+	"runtime/pprof"
 
-	"verifharness/lib/dmodel"
+	_ "verifharness/mon/c02"
+	"verifharness/rt"
 )
 
 func main() {
-	t := time.Now()
-	p := dmodel.Pool(dmodel.MySQL)
-	fmt.Println("pool", len(p), time.Since(t))
-	t = time.Now()
-	n := 0
-	for _, m := range p {
-		n += len(dmodel.Catalogue(m))
-	}
-	fmt.Println("catalogue", n, time.Since(t))
-	t = time.Now()
-	for _, m := range p {
-		for _, e := range dmodel.Catalogue(m) {
-			e.Apply(m)
-		}
-	}
-	fmt.Println("apply all", time.Since(t))
-	t = time.Now()
-	for _, m := range p {
-		for i := 0; i < 100; i++ {
-			dmodel.Build(m)
-		}
-	}
-	fmt.Println("build x100", time.Since(t))
-	t = time.Now()
-	for _, m := range p {
-		for i := 0; i < 10; i++ {
-			if dmodel.HCLExpressible(m) {
-				if _, err := dmodel.Eval(m); err != nil {
-					panic(err)
-				}
-			}
-		}
-	}
-	fmt.Println("eval x10", time.Since(t))
-	t = time.Now()
-	r := rand.New(rand.NewPCG(1, 2))
-	for i := 0; i < 200; i++ {
-		dmodel.RandomEdits(p[i%len(p)], 6, r)
-	}
-	fmt.Println("walk x200", time.Since(t))
+	f, _ := os.Create("/var/tmp/c02x/cpu.prof")
+	pprof.StartCPUProfile(f)
+	defer pprof.StopCPUProfile()
+	rt.Main()
 }
